@@ -672,6 +672,33 @@ struct is_generalised_matrix_matrix<Index<Idx0...>,Index<Idx1...> > {
     static constexpr bool no_repeats = no_of_unique<Idx0...>::value == sizeof...(Idx0) && no_of_unique<Idx1...>::value == sizeof...(Idx1);
     static constexpr bool value = no_repeats && !is_mat_vec && !is_vec_mat && !is_inner && match_indices_from_two_ends(idx0, idx1, ncontracted);
 };
+
+// A tensor of order zero (empty index list) on either side is never a generalised matrix-vector, vector-matrix or
+// matrix-matrix product; without these specialisations the primary templates form zero-length index arrays
+template<size_t ... Idx1>
+struct is_generalised_matrix_vector<Index<>,Index<Idx1...> > {
+    static constexpr size_t which_one_is_vector = 0; static constexpr bool value = false; static constexpr size_t matches_up_to = 0;
+};
+template<size_t Idx00, size_t ... Idx0>
+struct is_generalised_matrix_vector<Index<Idx00,Idx0...>,Index<> > {
+    static constexpr size_t which_one_is_vector = 1; static constexpr bool value = false; static constexpr size_t matches_up_to = 0;
+};
+template<size_t ... Idx1>
+struct is_generalised_vector_matrix<Index<>,Index<Idx1...> > {
+    static constexpr size_t which_one_is_vector = 0; static constexpr bool value = false; static constexpr size_t matches_up_to = 0;
+};
+template<size_t Idx00, size_t ... Idx0>
+struct is_generalised_vector_matrix<Index<Idx00,Idx0...>,Index<> > {
+    static constexpr size_t which_one_is_vector = 1; static constexpr bool value = false; static constexpr size_t matches_up_to = 0;
+};
+template<size_t ... Idx1>
+struct is_generalised_matrix_matrix<Index<>,Index<Idx1...> > {
+    static constexpr int ncontracted = 0; static constexpr bool value = false;
+};
+template<size_t Idx00, size_t ... Idx0>
+struct is_generalised_matrix_matrix<Index<Idx00,Idx0...>,Index<> > {
+    static constexpr int ncontracted = 0; static constexpr bool value = false;
+};
 //--------------------------------------------------------------------------------------------------------------------//
 } // namespace internal
 
